@@ -5,50 +5,68 @@
 import Echse.Lemmas.Ical12
 namespace Echse.Ical
 
-def book (x : Parser × Option PullRes) (acc : List Instr) : Option (Parser × List Instr) :=
-  match x.2 with
-  | none => some (x.1, acc)
-  | some .need => none
-  | some .eop => some (resetMeth x.1, acc)
-  | some (.ve ls) =>
-    if verbOf x.1.comp.meth ls == "X" then some (x.1, acc) else some (x.1, acc ++ [mkInstr x.1 ls])
-
-theorem flatNext_eq (p : Parser) (acc : List Instr) : flatNext p acc = book (round p) acc := rfl
-
-theorem book_proc (q0 : Parser) (acc : List Instr) :
-    book (procRes (doProc q0)) acc = some (bookProc q0 acc) := by
-  have := flatNext_proc
-  unfold book bookProc procRes
-  cases hr : (doProc q0).2 with
-  | none => rfl
-  | eop => rfl
-  | ve =>
-    dsimp only
-    split <;> rfl
-
 theorem rel_unmarked (p : Parser) (A : Abs) (h : Rel p A) (hp : A.sc.pend = false) : p.eolp = false := by
   cases hx : p.eolp with
   | false => rfl
   | true => have := h.mark.1 hx; rw [hp] at this; cases this
 
-theorem stashRest_eq (p : Parser) (s : Bool) (h : p.stash.length + (rest p).length < stashSize)
-    (hu : p.eolp = false) :
-    (stashRest p s).1 =
-      { p with stash := p.stash ++ unesc (rest p), sentinel := 0, eolp := s, bix := p.buf.length } := by
-  unfold stashRest
-  have hl := unesc_length (rest p)
-  unfold rest at h hl ⊢
-  dsimp only
-  rw [if_neg (by omega), esccpy_eq _ _ (by omega), hu]
-  rfl
+/-- `esccpy` into what is left of the stash: all of it or nothing -/
+theorem esccpy_cases (six : Nat) (src : List Byte) (h : six < stashSize) :
+    (six + (unesc src).length < stashSize ∧ (esccpy (stashSize - six) src).1 = some (unesc src)) ∨
+    (stashSize ≤ six + (unesc src).length ∧ (esccpy (stashSize - six) src).1 = none) := by
+  by_cases hf : six + (unesc src).length < stashSize
+  · left; refine ⟨hf, ?_⟩
+    rw [esccpy_eq _ _ (by omega)]
+  · right; refine ⟨by omega, ?_⟩
+    rw [esccpy_none _ _ (by omega) (by omega)]
 
-theorem takeLine_eq (p : Parser) (e : Nat) (h : p.stash.length + e < stashSize) :
-    takeLine p e = { p with bix := p.bix + e, stash := p.stash ++ unesc ((rest p).take e), sentinel := 0 } := by
-  unfold takeLine
-  have hl := unesc_length ((rest p).take e)
-  have : ((rest p).take e).length ≤ e := by simp; omega
-  unfold rest at hl this ⊢
-  rw [esccpy_eq _ _ (by omega)]
+/-- the rest of the buffer copied: skip and stash follow the unfolded line -/
+theorem copyRest_spec (p : Parser) (A : Abs) (h : Rel p A) :
+    ((A.cur ++ unesc (rest p)).length < stashSize →
+      (copyRest p).skip = false ∧ (copyRest p).stash = A.cur ++ unesc (rest p)) ∧
+    (stashSize ≤ (A.cur ++ unesc (rest p)).length → (copyRest p).skip = true ∧ (copyRest p).stash = []) := by
+  rw [List.length_append]
+  by_cases hfit : A.cur.length < stashSize
+  · obtain ⟨hk, hs⟩ := h.fits hfit
+    unfold copyRest
+    rw [if_neg (by rw [hk]; simp)]
+    have hc := esccpy_cases p.stash.length (rest p) (by rw [hs]; exact hfit)
+    unfold rest at hc ⊢
+    rw [hs] at hc ⊢
+    rcases hc with ⟨h1, h2⟩ | ⟨h1, h2⟩
+    · rw [h2]
+      exact ⟨fun _ => ⟨hk, rfl⟩, fun hx => by omega⟩
+    · rw [h2]
+      exact ⟨fun hx => by omega, fun _ => ⟨rfl, rfl⟩⟩
+  · have hover : stashSize ≤ A.cur.length := by omega
+    obtain ⟨hk, hs⟩ := h.over hover
+    unfold copyRest
+    rw [if_pos hk]
+    exact ⟨fun hx => by omega, fun _ => ⟨hk, hs⟩⟩
+
+/-- a complete line copied: skip and stash follow the unfolded line (the stash is cleared at `proc:`) -/
+theorem takeLine_spec (p : Parser) (A : Abs) (h : Rel p A) (e : Nat) :
+    ((A.cur ++ unesc ((rest p).take e)).length < stashSize →
+      (takeLine p e).skip = false ∧ (takeLine p e).stash = A.cur ++ unesc ((rest p).take e)) ∧
+    (stashSize ≤ (A.cur ++ unesc ((rest p).take e)).length → (takeLine p e).skip = true) := by
+  rw [List.length_append]
+  by_cases hfit : A.cur.length < stashSize
+  · obtain ⟨hk, hs⟩ := h.fits hfit
+    unfold takeLine
+    rw [if_neg (by rw [hk]; simp)]
+    have hc := esccpy_cases p.stash.length ((rest p).take e) (by rw [hs]; exact hfit)
+    unfold rest at hc ⊢
+    rw [hs] at hc ⊢
+    rcases hc with ⟨h1, h2⟩ | ⟨h1, h2⟩
+    · rw [h2]
+      exact ⟨fun _ => ⟨hk, rfl⟩, fun hx => by omega⟩
+    · rw [h2]
+      exact ⟨fun hx => by omega, fun _ => rfl⟩
+  · have hover : stashSize ≤ A.cur.length := by omega
+    obtain ⟨hk, hs⟩ := h.over hover
+    unfold takeLine
+    rw [if_pos hk]
+    exact ⟨fun hx => by omega, fun _ => hk⟩
 
 /-- what is known of a parser that reported `need more data`, and of its automaton state: the buffer is used
 up (`BI = p->bsz` in the stash branch), so the pre-examination of a marked stash reads 0 behind it -/
@@ -57,26 +75,23 @@ structure Post (p : Parser) (A : Abs) : Prop where
   done : rest p = []
   inv : Inv A
 
-/-- the rest of the buffer is a piece of one line: it is stashed -/
+/-- the rest of the buffer is a piece of one line: it is stashed, or found not to fit -/
 theorem stash_spec (p : Parser) (A : Abs) (h : Pre p A) (hp : A.sc.pend = false) (b : Bool)
     (hl : lineEnd (rest p) = some b) :
     Post (stashRest p b).1 (runA A (rest p)) ∧ (runA A (rest p)).ins = A.ins := by
   have hrun := seg_runA _ (rest p) A b (Nat.le_refl _) hl h.nobsl hp
   have hsc := seg_runSc _ (rest p) A.sc b (Nat.le_refl _) hl hp
-  have hraw := good_raw _ _ h.good
-  rw [hsc.2.1] at hraw
-  have hlen : p.stash.length + (rest p).length < stashSize := by
-    have := h.inv.2.1; rw [← h.rel.stash] at this
-    unfold stashSize; omega
-  rw [stashRest_eq p _ hlen (rel_unmarked p A h.rel hp), hrun]
-  refine ⟨⟨⟨?_, h.rel.comp, h.rel.log, ?_⟩, ?_, ?_⟩, rfl⟩
-  · show p.stash ++ unesc (rest p) = A.cur ++ unesc (rest p)
-    rw [h.rel.stash]
-  · show b = true ↔ (runSc A.sc (rest p)).pend = true
-    rw [hsc.1]
-  · show List.drop p.buf.length p.buf = []
+  have hcp := copyRest_spec p A h.rel
+  have hinv := runA_inv A (rest p) h.inv
+  rw [hrun] at hinv ⊢
+  refine ⟨⟨⟨hcp.1, hcp.2, ?_, ?_, ?_⟩, ?_, hinv⟩, rfl⟩
+  · show (copyRest p).comp = A.comp
+    rw [copyRest_comp]; exact h.rel.comp
+  · show (copyRest p).log = A.log
+    rw [copyRest_log]; exact h.rel.log
+  · show ((copyRest p).eolp || b) = true ↔ (runSc A.sc (rest p)).pend = true
+    rw [hsc.1, copyRest_eolp, rel_unmarked p A h.rel hp]; simp
+  · show List.drop (copyRest p).buf.length (copyRest p).buf = []
     exact List.drop_length
-  · have := runA_inv A (rest p) h.inv
-    rw [hrun] at this; exact this
 
 end Echse.Ical
